@@ -186,6 +186,10 @@ func tokenBridgeRegisterChain(
 		return nil, errors.New("invalid chain_id")
 	}
 
+	if len(req.Module) > 32 {
+		return nil, errors.New("invalid module (expected at most 32 bytes)")
+	}
+
 	b, err := hex.DecodeString(req.EmitterAddress)
 	if err != nil {
 		return nil, errors.New("invalid emitter address encoding (expected hex)")
@@ -220,6 +224,10 @@ func tokenBridgeUpgradeContract(
 	sequence uint64,
 	targetChainId vaa.ChainID,
 ) (*vaa.VAA, error) {
+	if len(req.Module) > 32 {
+		return nil, errors.New("invalid module (expected at most 32 bytes)")
+	}
+
 	payload, err := hex.DecodeString(req.Payload)
 	if err != nil {
 		return nil, errors.New("invalid payload encoding (expected hex)")
@@ -243,6 +251,14 @@ func tokenBridgeDestroyUnexecutedSequenceContracts(
 	sequence uint64,
 	targetChainId vaa.ChainID,
 ) (*vaa.VAA, error) {
+	if req.EmitterChain > math.MaxUint16 {
+		return nil, errors.New("invalid emitter_chain")
+	}
+
+	if len(req.Sequences) > math.MaxUint16 {
+		return nil, errors.New("too many sequences (expected at most 65535)")
+	}
+
 	v := vaa.CreateGovernanceVAA(governanceChainId, governanceEmitterAddress, timestamp, nonce, sequence, targetChainId, guardianSetIndex,
 		vaa.BodyTokenBridgeDestroyContracts{
 			EmitterChain: vaa.ChainID(req.EmitterChain),
@@ -262,6 +278,10 @@ func tokenBridgeUpdateMinimalConsistencyLevel(
 	sequence uint64,
 	targetChainId vaa.ChainID,
 ) (*vaa.VAA, error) {
+	if req.NewConsistencyLevel > math.MaxUint8 {
+		return nil, errors.New("invalid new_consistency_level")
+	}
+
 	v := vaa.CreateGovernanceVAA(governanceChainId, governanceEmitterAddress, timestamp, nonce, sequence, targetChainId, guardianSetIndex,
 		vaa.BodyTokenBridgeUpdateMinimalConsistencyLevel{
 			NewConsistencyLevel: uint8(req.NewConsistencyLevel),
@@ -283,6 +303,11 @@ func tokenBridgeUpdateRefundAddress(
 	if err != nil {
 		return nil, errors.New("invalid refund address encoding (expected hex)")
 	}
+
+	if len(address) > math.MaxUint16 {
+		return nil, errors.New("refund address too long (expected at most 65535 bytes)")
+	}
+
 	v := vaa.CreateGovernanceVAA(governanceChainId, governanceEmitterAddress, timestamp, nonce, sequence, targetChainId, guardianSetIndex,
 		vaa.BodyTokenBridgeUpdateRefundAddress{
 			NewRefundAddress: address,
@@ -327,7 +352,7 @@ func (s *nodePrivilegedService) InjectGovernanceVAA(ctx context.Context, req *no
 		case *nodev1.GovernanceMessage_UpdateRefundAddress:
 			v, err = tokenBridgeUpdateRefundAddress(s.governanceChainId, s.governanceEmitterAddress, payload.UpdateRefundAddress, timestamp, req.CurrentSetIndex, message.Nonce, message.Sequence, targetChainId)
 		default:
-			panic(fmt.Sprintf("unsupported VAA type: %T", payload))
+			return nil, status.Error(codes.InvalidArgument, fmt.Sprintf("unsupported VAA type: %T", payload))
 		}
 		if err != nil {
 			return nil, status.Error(codes.InvalidArgument, err.Error())
